@@ -58,8 +58,17 @@ pub fn gen_case(rng: &mut Rng, kind: Kind) -> Vec<String> {
     let g = gen::generate(rng, kind);
     let mut lines = g.u.to_lines();
     lines.push(g.p.to_line());
-    lines.push(Config::default().to_line());
+    let mut cfg = Config::default();
+    cfg.activity = pick_activity(rng);
+    lines.push(cfg.to_line());
     lines
+}
+
+/// `Solver::with_activity_params`: 1/4 of the cases run with non-default parameters of the decision heuristic
+/// (C02 quantifies over them); all values are exactly representable decimals for f32 parsing on both sides.
+pub fn pick_activity(rng: &mut Rng) -> Option<(f32, f32)> {
+    if !rng.chance(1, 4) { return None; }
+    Some(*rng.pick(&[(0.5, 0.9), (2.0, 0.5), (1.0, 1.0), (0.25, 0.75), (3.0, 0.99), (0.0, 0.95), (1.0, 0.0), (10.0, 0.125)]))
 }
 
 /// C12: a case whose cancellation plan is drawn from the polls / provider requests of the uncancelled run.
@@ -151,6 +160,7 @@ pub fn gen_reuse_case(rng: &mut Rng, async_mode: bool) -> Vec<String> {
     }
     for p in &probs { lines.push(p.to_line()); }
     let mut cfg = Config { render: false, ..Config::default() };
+    cfg.activity = pick_activity(rng);
     if async_mode {
         cfg.mode = "async".into();
         cfg.sched = match rng.below(3) { 0 => "fifo".into(), 1 => "lifo".into(), _ => format!("rand:{}", rng.below(1 << 30)) };
@@ -179,6 +189,7 @@ pub fn gen_async_case(rng: &mut Rng, conflict_free: bool) -> Vec<String> {
     let mut cfg = Config { render: false, mode: "async".into(), ..Config::default() };
     cfg.sched = match rng.below(4) { 0 => "fifo".into(), 1 => "lifo".into(), _ => format!("rand:{}", rng.below(1 << 30)) };
     cfg.gate_fs = rng.chance(1, 3);
+    cfg.activity = pick_activity(rng);
     // 1/5: a provider whose sort_candidates reads the candidates' dependencies through the SolverCache (as conda-style
     // providers do): its queries overlap with the solver's own outstanding requests (oracles only, not modelled)
     cfg.sort_peeks = rng.chance(1, 5);
